@@ -247,7 +247,11 @@ class CHECK(Check):
                   "in every column, the key partition equals the tuple-equality partition and MetricFrame's non-empty "
                   "intersectional cells. Tie: Generated/MergeConsts.lean is lifted from _merge_columns on every run; "
                   "moments' tags/index, EG/GridSearch, ThresholdOptimizer fit keys and predict-time rule selection are "
-                  "compared with the compiled model and a first-principles tuple-equality oracle.")
+                  "compared with the compiled model and a first-principles tuple-equality oracle. Callers (lifted into "
+                  "Generated/MergeCallers.lean): a single column is passed through unchanged (not stringified) and is "
+                  "injective too, >= 2 columns are merged, control features use the same function under the same test, "
+                  "and every fit-time and the predict-time call site reach the same encoder (encode_single/multi/"
+                  "injective, control_uses_same_encoder, fit_predict_same_encoder, predict_selects_same_tuple).")
     design_ref = "DESIGN.md section 4, C13"
     quick_cases = 600
     thorough_cases = 6000
@@ -263,7 +267,10 @@ class CHECK(Check):
             "ThresholdOptimizer interpolation_dict keys + _pmf_predict on permuted/new (tuple, score) rows, also with "
             "another container at predict time; EG/GridSearch lambda_vecs_ index and predictions vs. the same fit on "
             "first-principles group ids. distinct = distinct (cols, container, table, labels, targets); non-trivial = "
-            ">= 2 distinct tuples. thorough: one table holding all 441 two-column tuples with values of length <= 2 "
+            ">= 2 distinct tuples. 15% 'callers' cases: 1-3 columns incl. a single str/int/float/bool/mixed column in a flat "
+            "list, Series, (n,1) DataFrame / object array or 1-d array, object tables with bools, None and look-alike "
+            "strings ('True', 'None', '1', '1.0'), 1- or 2-column control features, ThresholdOptimizer queried in another "
+            "container at predict time. thorough: one table holding all 441 two-column tuples with values of length <= 2 "
             "over {',', '\\\\', 'a', ' '} per container, and every pair of those tuples as its own 4-row table")
     explanation = ("theorems over the Lean model Merge (all inputs); encoder constants lifted from the source; "
                    "correspondence: merged keys/partitions from moments, EG, GridSearch, ThresholdOptimizer vs compiled "
@@ -272,7 +279,9 @@ class CHECK(Check):
                "str()/repr(); values with trailing NUL characters are outside the alphabet (numpy strips them)",
                "pandas groupby / MultiIndex on the merged string column",
                "python str.replace with a one-character pattern = per-character substitution (List.flatMap in the model)")
-    assumptions = ("every row has the same number (>= 2) of columns", "cells are str, int or float (no NaN/None)")
+    assumptions = ("every row has the same number (>= 1) of columns",
+                   "cells are str, int, float or bool; None only inside object arrays (where numpy's astype(str) yields "
+                   "'None'; a None in a DataFrame is a missing value and the table is rejected); no NaN")
 
     # ---------------------------------------------------------------- generation
     def _rand_str(self, rng):
